@@ -51,7 +51,7 @@ def gen_prop_ast(rng):
         if rng.random() < 0.3:
             ch.append(g.prop(rng.randint(0, 1)))          # a compound operand next to the atoms
         dflt = [rng.choice([c["id"] for c in ch if c["k"] == "str"])] if rng.random() < 0.8 else None
-        return {"k": rng.choice(["CcAny", "CcXor"]), "ch": ch, "default": dflt, "id": g.fresh()}
+        return {"k": rng.choice(["CcAny", "CcXor"]), "ch": ch, "default": dflt, "id": g.fresh(), "dform": rng.choice([None, None, "tuple", "iter", "gen"]) if dflt else None}
     r = rng.random()
     if r < 0.5:
         a = g.prop(rng.randint(0, 3))
